@@ -540,7 +540,8 @@ class ContinuousPagingSession(object):
                 pass
 
     def maybe_request_more(self):
-        if not self._state:
+        # once the session has stopped (last page, error or cancel) its stream is finished: no more pages to ask for
+        if not self._state or self._stop:
             return
 
         max_queue_size = self._state.max_queue_size
@@ -574,7 +575,9 @@ class ContinuousPagingSession(object):
         else:
             log.error("Failed updating backpressure for session %s from %s: %s", self.stream_id, self.connection.host,
                       response.to_exception() if hasattr(response, 'to_exception') else response)
-            self.on_error(response)
+            if not self._stop:
+                # a complete result (or an earlier error / cancel) is not turned into this error
+                self.on_error(response)
 
     def cancel(self):
         try:
